@@ -5,10 +5,10 @@ import (
 	"encoding/json"
 	"fmt"
 	"os"
-	"os/exec"
 	"reflect"
 	"runtime"
 	"strings"
+	"time"
 	"unsafe"
 
 	"verif/gen"
@@ -397,12 +397,12 @@ func runC13Sub(c *harness.Ctx, name string) {
 	c.Tag("sub:" + name)
 	c.Shape("sub/" + name)
 	c.NonTrivial()
-	exe, _ := os.Executable()
-	cmd := exec.Command(exe, "-sub", name)
-	var out, errb bytes.Buffer
-	cmd.Stdout = &out
-	cmd.Stderr = &errb
-	err := cmd.Run()
+	outB, errB, err, hung := runSub(name, nil, 10*time.Minute)
+	if hung {
+		c.Inconclusive("scenario %s exceeded the 10 min wall-clock limit: %s", name, clipStr(string(errB), 1500))
+		return
+	}
+	out, errb := bytes.NewBuffer(outB), bytes.NewBuffer(errB)
 	var res subResult
 	if jerr := json.Unmarshal(out.Bytes(), &res); err != nil || jerr != nil {
 		es := errb.String()
